@@ -371,14 +371,6 @@ pub open spec fn scan_kind(p: Seq<RdItem>) -> EK
         }
     }
 }
-pub open spec fn err_kind(e: crate::parser::ParserError) -> EK {
-    match e {
-        crate::parser::ParserError::QuickXmlError(_, _) => EK::Syntax,
-        crate::parser::ParserError::AttrError(_) => EK::Attr,
-        crate::parser::ParserError::FromUtf8Error(_) => EK::Utf8,
-        crate::parser::ParserError::ParsingError(_) => EK::NoElement,
-    }
-}
 pub proof fn lemma_attrs_kind(a: Seq<Option<Seq<u8>>>)
     ensures g_attrs_ok(a) <==> attrs_kind(a) is Fine, !(attrs_kind(a) is Syntax) && !(attrs_kind(a) is NoElement),
     decreases a.len()
